@@ -26,6 +26,12 @@ THEOREMS = [
     "c05_only_lf_separates",
     "c05_real_codec_line",
     "c05_real_codec_stream",
+    "c05_route_each_message",
+    "c05_route_refines",
+    "c05_route_streams",
+    "c05_route_chunk_independent",
+    "c05_route_real_refines",
+    "c05_route_never_raises",
 ]
 RULE = (
     "streams of 1..6 lines (messages in several serialisations with ASCII / 2- / 3- / 4-byte characters, U+0085, "
@@ -179,8 +185,10 @@ def all_cuts(n, k):
 
 class Chunking(Suite):
     name = "chunking"
+    _ctx = None
 
     def cases(self, ctx, budget):
+        self._ctx = ctx
         out = []
         thorough = budget != "quick"
         streams = directed_streams()
@@ -268,14 +276,19 @@ class Chunking(Suite):
     # ------------------------------------------------------------------ model
     def model_line(self, case):
         table, _ = G.line_table([it["text"] for it in case["items"]] + ([case["tail"]] if case.get("tail") else []))
-        return {"m": "stdio_reader", "events": [{"c": bytes.fromhex(e["c"]).hex() if "c" in e else e["s"].encode("utf-8").hex()}
-                                                  for e in events_for(case)], "table": table, "cap": NOTIF_CAP}
+        opts = case.get("opts", {})
+        regs = [{"reg": str(k)} for k in list(opts.get("pending", [])) + list(opts.get("pending_closed", []))]
+        return {"m": "stdio_reader", "events": regs + [{"c": bytes.fromhex(e["c"]).hex() if "c" in e else e["s"].encode("utf-8").hex()}
+                                                        for e in events_for(case)], "table": table, "cap": NOTIF_CAP}
 
     def model_obs(self, out, case):
         _, msgs = G.line_table([it["text"] for it in case["items"]] + ([case["tail"]] if case.get("tail") else []))
         if "driver_error" in out:
             return out
-        return {"delivered": [msgs[i][0] for i in out["delivered"]], "notified": [msgs[i][0] for i in out["offered"]],
+        reqs = {}
+        for k, i in out.get("requests", []):
+            reqs.setdefault(k, []).append(msgs[i][0])
+        return {"requests": reqs, "delivered": [msgs[i][0] for i in out["delivered"]], "notified": [msgs[i][0] for i in out["offered"]],
                 "rejections": out["rejections"]}
 
     def compare(self, case, o, m):
@@ -288,6 +301,11 @@ class Chunking(Suite):
                 return "delivered"
             if not G.notif_ok(ob["notified"], m["notified"]):  # None: no notification stream handed out / receiver closed
                 return "notified"
+        # supplementary (the property text does not name the per-request streams of the legacy API): informational
+        for k, got in (o.get("legacy") or {}).items():
+            if core.canon(got) != core.canon(m.get("requests", {}).get(k, [])) and self._ctx is not None and len(self._ctx.notes) < 8:
+                self._ctx.notes.append(f"INFORMATIONAL routing divergence: per-request stream {k!r} received {len(got)} message(s), "
+                                       f"the routing model says {len(m.get('requests', {}).get(k, []))} (case {core.sha(case)})")
         return None
 
     # ------------------------------------------------------------------ property oracle
